@@ -88,6 +88,9 @@ partial def exprOf (j : Json) : Except String Expr := do
 
 def updOf (j : Json) : Except String Upd := do
   if let .ok e := j.getObjVal? "plain" then return .plain (← exprOf e)
+  if let .ok a := j.getObjVal? "condIn" then
+    let a ← a.getArr?
+    return .condIn 99 (← exprOf a[0]!) (← exprOf a[1]!) (← exprOf a[2]!) (← exprOf a[3]!)
   let a ← (← j.getObjVal? "cond").getArr?
   return .cond (← exprOf a[0]!) (← exprOf a[1]!) (← exprOf a[2]!)
 
@@ -286,6 +289,7 @@ structure FormFacts where
 def updExprs : Upd → List Expr
   | .plain e => [e]
   | .cond t a b => [t, a, b]
+  | .condIn _ t a b body => [t, a, b, body]
 
 /-- static Python kind of the fold: iterate the kind of the update from the seed's kind to a fixed point -/
 def condKindR (rp : Bool) (a b : Expr) : PK := if a.pyKind rp = .float || b.pyKind rp = .float then .float else .int
@@ -295,11 +299,17 @@ def aggKind (seed : Expr) (u : Upd) (rp : Bool := true) : PK × Nat :=
     match u with
     | .plain e => (e.retype acc).pyKind rp
     | .cond _ a b => condKindR rp (a.retype acc) (b.retype acc)
+    | .condIn slot _ a b body =>
+      let ck := condKindR rp (a.retype acc) (b.retype acc)
+      ((body.retype acc).retypeAt slot (match ck with | .float => .double | _ => .int)).pyKind rp
   -- "at least as wide as every value folded in": the accumulator itself is not one of them
   let w : Nat :=
     match u with
     | .plain e => (e.retype .int).width
     | .cond _ a b => condWidth (a.retype .int) (b.retype .int)
+    | .condIn slot _ a b body =>
+      let cw := condWidth (a.retype .int) (b.retype .int)
+      ((body.retype .int).retypeAt slot (match cw with | 0 => .int | 1 => .float | _ => .double)).width
   let k0 := seed.pyKind rp
   let ct (k : PK) : CT := match k with | .int => .int | .bool => .bool | .float => .double
   let k1 := kindOf (ct k0)
@@ -325,6 +335,8 @@ def factsOf : FormE → FormFacts
                   || (match u with
                       | .cond _ a b => condIntegral (a.retype (if k = .float then .double else .int)) (b.retype (if k = .float then .double else .int))
                                        || (k != .float)
+                      -- an integer-valued fold that goes through the always-double conditional (exclusion E)
+                      | .condIn _ _ _ _ _ => k != .float
                       | .plain _ => false) }
 
 def modNonnegForm (f : FormE) (envs : List (Env F)) : Bool :=
